@@ -144,9 +144,10 @@ _EXTRA = {
  "C08": " Leaf alphabets include equal-valued leaves of different types (1, 1.0, True) and a union of two array annotations whose first alternative binds and fails.",
  "C09": " Also: dict structures differing only in their keys (processed in one worker), and the same container object mutated in place between two checks of one context.",
  "C12": " 30 operations incl. a hooked import of a module that does not compile, and a generator / a coroutine left suspended while later activity happens.",
+ "C15": " The scalar law also ranges over user-defined categories holding regex patterns (alone, mixed with names, matching everything) and plain name lists.",
  "C16": " Every sequence with equal sizes is also run with the SAME array object at several leaf positions; leaf types include tuple[PyTree[Q], Q].",
  "C17": " Extra families: keyword-only parameters with asymmetric warm-up (one call in one mode, then all modes), parameter names colliding with axis names, isinstance checks made by the body on temporaries, Python scalars / weakly typed values.",
- "C18": " Operations include runs made with checking disabled, source roll-backs to an OLDER mtime (the state distinguishes stale-older from stale-newer files) and a hooked module that does not compile; a divergence between in-process and separate-process execution is reported as a process-state leak.",
+ "C18": " Concurrent part (engine E3, vf/checks/c18_threads.py): a run whose two threads import two independent modules at the same time is explored under every schedule with <= 2 preemptions (call granularity in the hook's code, importlib._bootstrap_external and unittest.mock; thorough also <= 3 for two hooks and <= 1 at source-line granularity), six hook configurations; after every schedule the modules of the run itself, a re-import in the same process after uninstall and three later runs (checker A / B / no hook) over the directory left behind must execute exactly their own configuration's instrumentation. Operations of the sequential part also include a run that imports from deep inside the call stack (the hook's recursive transformation overflows) and a run with a second hook that is uninstalled twice. Operations include runs made with checking disabled, source roll-backs to an OLDER mtime (the state distinguishes stale-older from stale-newer files) and a hooked module that does not compile; a divergence between in-process and separate-process execution is reported as a process-state leak.",
  "C19": " Extra parts: jaxtyped(typechecker=None), the switch set in one thread and the call made in another, the switch flipped while a decorated call or a context block is on the stack.",
  "C20": " Loaded copies are re-measured after all later loads of the batch and after a SECOND pickle generation; originals are re-measured after the whole cloudpickle batch.",
  "C11": " Oracle violations that do not reproduce from a reset world are reported as a process-state leak (with a [polluter ; reset ; history] witness when one is found).",
